@@ -2,7 +2,10 @@
 # tools/regress_mutants.sh: every seeded change against the quick check of the property it breaks
 # (fast flavour only, tests not re-run); prints one CHECK line per change
 VERIF="$(cd "$(dirname "$0")/.." && pwd)"
-for d in "$VERIF"/seeded/*/; do
+# newest rounds first (ORDER=old for the directory order)
+LIST=$(ls -d "$VERIF"/seeded/*/ | awk '{n=$0; sub(/\/$/,"",n); k=substr(n,length(n),1); print k, $0}' | sort -r | awk '{print $2}')
+[ "${ORDER:-}" = old ] && LIST=$(ls -d "$VERIF"/seeded/*/)
+for d in $LIST; do
   m=$(basename "$d")
   SKIP_TESTS=1 FAST_ONLY=1 "$VERIF/tools/eval_mutant.sh" "$d" ${m:0:3} 2>&1 | grep -E "^(CHECK|RESULT)"
 done
